@@ -7,8 +7,7 @@ Open Scope string_scope.
 
 (* (object file, symbol, size in bytes) of every object in a writable section *)
 Definition statics : list (string * string * N) := [
-  ("archive_read_support_format_tar.c", "default_dev", 4%N);
-  ("archive_read_support_format_tar.c", "default_inode", 4%N);
+  ("archive_read_support_format_tar.c", "decode_table", 128%N);
   ("archive_version_details.c", "init", 4%N);
   ("archive_version_details.c", "mtx", 40%N);
   ("archive_version_details.c", "str", 24%N)
@@ -16,8 +15,7 @@ Definition statics : list (string * string * N) := [
 
 (* section each of them lives in (same order) *)
 Definition statics_sections : list string := [
-  ".bss.default_dev.2";
-  ".bss.default_inode.1";
+  ".bss.decode_table.0";
   ".bss.init.1";
   ".bss.mtx.2";
   ".bss.str.0"
